@@ -9,6 +9,7 @@ import (
 	"fmt"
 	"regexp"
 	"strings"
+	"sync"
 	"unicode/utf8"
 
 	yaml3 "gopkg.in/yaml.v3"
@@ -137,7 +138,7 @@ type Style struct {
 	Compact  bool // JSON without whitespace
 	ASCII    bool // escape all non-ASCII
 	Comments bool // YAML: comments and blank lines
-	Quote    int  // YAML strings: 0 = plain where safe else double, 1 = always double, 2 = single where possible
+	Quote    int  // YAML strings: 0 = plain where safe else double, 1 = always double, 2 = single where possible, 3 = plain wherever an independent loader reads the same string back
 	Anchors  bool // YAML: anchors + aliases for repeated subtrees
 }
 
@@ -150,6 +151,7 @@ var Styles = []Style{
 	{Name: "yaml-flow", YAML: true, Flow: true, Indent: 2},
 	{Name: "yaml-block2-comments-single", YAML: true, Indent: 2, Comments: true, Quote: 2},
 	{Name: "yaml-block2-anchors", YAML: true, Indent: 2, Anchors: true},
+	{Name: "yaml-block2-plain", YAML: true, Indent: 2, Quote: 3},
 }
 
 func StyleByName(n string) Style {
@@ -403,10 +405,56 @@ func (e *emitter) yamlDouble(s string) {
 	e.w(b.String())
 }
 
+var plainCache sync.Map
+
+// plainLoads reports whether s, written as a plain scalar in block context (as a sequence entry and as a
+// mapping value), is read back by gopkg.in/yaml3.v3 as the string s. This is how common emitters spell most
+// strings: inner quotes, '#' or ':' without a neighbouring blank, commas and brackets need no quoting.
+func plainLoads(s string) bool {
+	if s == "" || len(s) > 200 || s[0] == ' ' || s[len(s)-1] == ' ' {
+		return false
+	}
+	for _, r := range s {
+		if r < 0x20 || r == 0x7f || r == 0x85 || r == 0x2028 || r == 0x2029 || r == 0xFEFF || r == utf8.RuneError || (r >= 0x80 && r < 0xA0) {
+			return false
+		}
+	}
+	if v, ok := plainCache.Load(s); ok {
+		return v.(bool)
+	}
+	ok := true
+	for _, doc := range []string{"- " + s + "\n", "k: " + s + "\n"} {
+		var n yaml3.Node
+		if err := yaml3.Unmarshal([]byte(doc), &n); err != nil || n.Kind != yaml3.DocumentNode || len(n.Content) != 1 {
+			ok = false
+			break
+		}
+		c := n.Content[0]
+		var leaf *yaml3.Node
+		switch {
+		case c.Kind == yaml3.SequenceNode && len(c.Content) == 1:
+			leaf = c.Content[0]
+		case c.Kind == yaml3.MappingNode && len(c.Content) == 2 && c.Content[0].Value == "k":
+			leaf = c.Content[1]
+		}
+		if leaf == nil || leaf.Kind != yaml3.ScalarNode || leaf.Style != 0 || leaf.Tag != "!!str" || leaf.Value != s {
+			ok = false
+			break
+		}
+	}
+	plainCache.Store(s, ok)
+	return ok
+}
+
 func (e *emitter) yamlString(s string) {
 	switch e.st.Quote {
 	case 0:
 		if plainOK(s) {
+			e.w(s)
+			return
+		}
+	case 3:
+		if plainLoads(s) {
 			e.w(s)
 			return
 		}
@@ -541,7 +589,7 @@ func (e *emitter) block(v *V, indent int, inline bool) {
 				first = false
 			}
 			e.key(m.Value)
-			if plainOK(m.Name) && e.st.Quote == 0 && !strings.Contains(m.Name, " ") {
+			if plainOK(m.Name) && (e.st.Quote == 0 || e.st.Quote == 3) && !strings.Contains(m.Name, " ") {
 				e.w(m.Name)
 			} else {
 				e.yamlDouble(m.Name)
